@@ -73,7 +73,7 @@ def extract():
     import extract as ex
     try:
         with Lock():
-            changed = ex.main(REPO, os.path.join(LEAN, "MammothModel", "Generated.lean"))
+            changed = ex.main(REPO, os.path.join(LEAN, "MammothModel", "Generated.lean"), status_path=os.path.join(WORK, "extract_status.json"))
         return True, "regenerated" if changed else "unchanged"
     except Exception as e:  # a table disappeared, a literal changed shape ...
         return False, "extraction failed: %s: %s" % (type(e).__name__, e)
@@ -149,6 +149,12 @@ def prove(prop, tier="quick"):
     ok_x, msg = extract()
     if not ok_x:
         problems.append(msg)
+    pinned = []
+    try:
+        st = json.load(open(os.path.join(WORK, "extract_status.json")))
+        pinned = sorted(t for t, v in st.items() if v == "pinned")
+    except Exception:
+        st = {}
     ok_b, out = lake_build(["MammothModel", "Properties.%s" % prop, "driver"])
     if not ok_b:
         errs = [l for l in out.splitlines() if "error" in l.lower()]
@@ -164,7 +170,17 @@ def prove(prop, tier="quick"):
         problems.append("forbidden tokens: " + "; ".join(hits[:5]))
     n, d, fails = audit(prop)
     problems += fails
-    extra = {}
+    extra = {"extraction": {k: v for k, v in st.items() if not k.startswith("__")}}
+    if pinned:
+        # these tables could be read neither from the running code nor from the source text (the code was restructured):
+        # the model keeps the pinned value, and the tie is re-established behaviourally where a probe exists
+        import probe
+        for t in pinned:
+            ok_p, msg = probe.confirm(t)
+            extra.setdefault("pinned_tables", {})[t] = msg
+            if not ok_p:
+                problems.append("table %s could not be extracted from /repo's source (%s) and the pinned value is not confirmed: %s"
+                                % (t, "; ".join(st.get("__why__", {}).get(t, []))[:300], msg))
     if tier == "thorough":
         ok_c, mods, text = leanchecker(prop)
         extra["leanchecker_modules"] = mods
